@@ -35,6 +35,7 @@ InitM == [ lst   |-> EmptyFn,          \* listing: line number -> normalised sta
            mode  |-> "ready",          \* ready | run | input | oom (outside the model)
            pc    |-> NoCont,
            ctl   |-> <<>>,             \* FOR and GOSUB frames, one stack
+           nslots |-> 0,               \* = Slots(ctl), maintained incrementally
            vars  |-> EmptyFn, dims |-> EmptyFn, deft |-> DeftInit, fns |-> EmptyFn,
            dptr  |-> 0,
            col   |-> 0,
@@ -79,10 +80,11 @@ Fail(m, p, v) ==
   IF IsUnk(v) THEN OutOfModel(m, "value")
   ELSE LET m1 == Item(FreshLine(m), [k |-> "err", errs |-> {[code |-> v.n, ln |-> ErrLine(v, p)]}])
            m2 == IF InProgram(p) THEN [m1 EXCEPT !.contx = TRUE, !.cont = NoCont, !.ctlx = TRUE]
-                 ELSE [m1 EXCEPT !.ctl = <<>>, !.cont = NoCont, !.contx = FALSE, !.ctlx = FALSE, !.stale = FALSE]
+                 ELSE [m1 EXCEPT !.ctl = <<>>, !.nslots = 0, !.cont = NoCont, !.contx = FALSE, !.ctlx = FALSE, !.stale = FALSE]
        IN  GoReady(m2)
 
 \* ---- memory pools
+FrameSlots(f) == IF f.k = "for" THEN 4 ELSE 1
 Slots(ctl) == 4 * Cardinality({i \in 1..Len(ctl) : ctl[i].k = "for"})
               + Cardinality({i \in 1..Len(ctl) : ctl[i].k # "for"})
 
@@ -121,7 +123,7 @@ DataIndexOfLine(m, ln) == CountData(FlatProg(m.lst), 1, ln)
 
 \* an edit cancels the continuation and everything that points into the old program
 Edited(m, lst, src) == [WithListing(m, lst) EXCEPT !.src = src,
-                                              !.cont = NoCont, !.contx = FALSE, !.ctl = <<>>, !.ctlx = FALSE,
+                                              !.cont = NoCont, !.contx = FALSE, !.ctl = <<>>, !.nslots = 0, !.ctlx = FALSE,
                                               !.stale = (m.stale \/ m.ctl # <<>> \/ m.ctlx)]
 
 \* ---- control transfer
@@ -151,7 +153,7 @@ NothingLeft(m, p) ==
 
 \* CLEAR (also the first half of RUN)
 Cleared(m) == [m EXCEPT !.vars = EmptyFn, !.dims = EmptyFn, !.deft = DeftInit, !.fns = EmptyFn,
-                        !.ctl = <<>>, !.dptr = 0, !.cont = NoCont, !.contx = FALSE, !.ctlx = FALSE,
+                        !.ctl = <<>>, !.nslots = 0, !.dptr = 0, !.cont = NoCont, !.contx = FALSE, !.ctlx = FALSE,
                         !.stale = FALSE]
 
 \* ---- FOR / NEXT / RETURN frame handling
@@ -170,8 +172,8 @@ PopToFor(ctl, any, key) ==
 
 Push(m, p, frame, target) ==
   LET c2 == Append(m.ctl, frame) IN
-  IF Slots(c2) > Limit THEN Fail(m, p, Err(EOutOfMemory))
-  ELSE JumpTo([m EXCEPT !.ctl = c2], p, target)
+  IF m.nslots + FrameSlots(frame) > Limit THEN Fail(m, p, Err(EOutOfMemory))
+  ELSE JumpTo([m EXCEPT !.ctl = c2, !.nslots = @ + FrameSlots(frame)], p, target)
 
 \* ---- INPUT reply handling (code-point level)
 RECURSIVE SplitFields(_, _, _, _)
@@ -181,70 +183,6 @@ SplitFields(s, i, cur, inq) ==
   ELSE IF s[i] = 34 THEN SplitFields(s, i + 1, Append(cur, 34), ~inq)
   ELSE IF s[i] = 44 /\ ~inq THEN <<cur>> \o SplitFields(s, i + 1, <<>>, FALSE)
   ELSE SplitFields(s, i + 1, Append(cur, s[i]), inq)
-IsBlank(c) == c = 32 \/ c = 9
-RECURSIVE TrimL(_), TrimR(_)
-TrimL(s) == IF s # <<>> /\ IsBlank(Head(s)) THEN TrimL(Tail(s)) ELSE s
-TrimR(s) == IF s # <<>> /\ IsBlank(s[Len(s)]) THEN TrimR(SubSeq(s, 1, Len(s) - 1)) ELSE s
-Trim(s) == TrimR(TrimL(s))
-Unquote(s) == IF Len(s) >= 2 /\ s[1] = 34 /\ s[Len(s)] = 34 THEN SubSeq(s, 2, Len(s) - 1) ELSE s
-IsDig(c) == c >= 48 /\ c <= 57
-IsAlpha(c) == (c >= 65 /\ c <= 90) \/ (c >= 97 /\ c <= 122)
-Upper(c) == IF c >= 97 /\ c <= 122 THEN c - 32 ELSE c
-RECURSIVE DigitsVal(_, _, _)
-DigitsVal(s, i, acc) == IF i > Len(s) THEN acc ELSE DigitsVal(s, i + 1, acc * 10 + (s[i] - 48))
-\* A numeric field (INPUT) / numeric text (VAL): decimal with optional sign, fraction and
-\* exponent (E or D), or the & (octal) and &H (hexadecimal) forms; the empty field is 0.
-\* Result: a Double (exact when it is a short dyadic, else Approx), an Integer for the radix
-\* forms, Err(TYPE MISMATCH) for text that is not a number, Unknown where the manual is silent
-\* (INF / NAN words, type suffixes, signs inside radix forms).
-AllDig(s) == \A i \in 1..Len(s) : IsDig(s[i])
-IsHexDig(c) == IsDig(c) \/ (Upper(c) >= 65 /\ Upper(c) <= 70)
-HexVal(c) == IF IsDig(c) THEN c - 48 ELSE Upper(c) - 55
-RECURSIVE RadixVal(_, _, _, _)
-RadixVal(s, i, r, acc) == IF i > Len(s) THEN acc ELSE RadixVal(s, i + 1, r, acc * r + HexVal(s[i]))
-IndexOf(s, P(_)) == LET hits == {i \in 1..Len(s) : P(s[i])} IN
-                    IF hits = {} THEN 0 ELSE CHOOSE i \in hits : \A k \in hits : i <= k
-ParseDecimal(f) ==
-  LET sgn  == IF f # <<>> /\ f[1] \in {43, 45} THEN 1 ELSE 0
-      neg  == sgn = 1 /\ f[1] = 45
-      body == SubSeq(f, sgn + 1, Len(f))
-      ei   == IndexOf(body, LAMBDA c : Upper(c) \in {69, 68})
-      mant == IF ei = 0 THEN body ELSE SubSeq(body, 1, ei - 1)
-      ex   == IF ei = 0 THEN <<>> ELSE SubSeq(body, ei + 1, Len(body))
-      esg  == IF ex # <<>> /\ ex[1] \in {43, 45} THEN 1 ELSE 0
-      eneg == esg = 1 /\ ex[1] = 45
-      edig == SubSeq(ex, esg + 1, Len(ex))
-      di   == IndexOf(mant, LAMBDA c : c = 46)
-      ip   == IF di = 0 THEN mant ELSE SubSeq(mant, 1, di - 1)
-      fp   == IF di = 0 THEN <<>> ELSE SubSeq(mant, di + 1, Len(mant))
-      wellformed == /\ AllDig(ip) /\ AllDig(fp) /\ (ip # <<>> \/ fp # <<>>)
-                    /\ (ei = 0 \/ (edig # <<>> /\ AllDig(edig)))
-  IN  IF ~wellformed THEN Err(ETypeMismatch)
-      ELSE IF Len(ip) + Len(fp) > 7 \/ Len(edig) > 1 THEN Unknown
-      ELSE LET Dg == DigitsVal(ip \o fp, 1, 0)
-               ev == (IF eneg THEN -1 ELSE 1) * DigitsVal(edig, 1, 0) - Len(fp)     \* value = Dg * 10^ev
-               sg == IF neg THEN -1 ELSE 1
-           IN  IF Dg = 0 THEN (IF neg THEN Unknown ELSE V("D", 0, 0, <<>>, TRUE))
-               ELSE IF ev >= 0 THEN (IF ev > 7 \/ ~MulFits(Dg, Pow10(ev)) THEN Unknown ELSE MkF("D", sg * Dg * Pow10(ev), 0))
-               ELSE IF -ev > 9 THEN Unknown
-               ELSE LET k == -ev  g == Pow5(k) IN
-                    IF Dg % g # 0 THEN Approx("D")              \* not a dyadic rational: inexact in binary
-                    ELSE MkF("D", sg * (Dg \div g), k)
-ParseField(f) ==
-  IF f = <<>> THEN MkI(0)
-  ELSE IF f[1] = 38 THEN        \* & octal, &H hexadecimal
-    (LET hex == Len(f) >= 2 /\ Upper(f[2]) = 72
-         ds  == SubSeq(f, IF hex THEN 3 ELSE 2, Len(f))
-         ok  == ds # <<>> /\ \A i \in 1..Len(ds) : IF hex THEN IsHexDig(ds[i]) ELSE (ds[i] >= 48 /\ ds[i] <= 55)
-     IN  IF ds # <<>> /\ ds[1] \in {43, 45} THEN Unknown
-         ELSE IF ~ok THEN Err(ETypeMismatch)
-         ELSE IF Len(ds) > 6 THEN Unknown
-         ELSE LET n == RadixVal(ds, 1, IF hex THEN 16 ELSE 8, 0) IN
-              IF n <= MaxInt THEN MkI(n) ELSE Unknown)
-  ELSE IF f[Len(f)] \in {33, 35, 37} THEN Unknown            \* a type suffix: the manual is silent
-  ELSE LET b == IF f[1] \in {43, 45} THEN Tail(f) ELSE f IN
-       IF b # <<>> /\ Upper(b[1]) \in {73, 78} THEN Unknown    \* INF / NAN words
-       ELSE ParseDecimal(f)
 \* ---- statements ----------------------------------------------------------
 TextOf(v) == IF IsStr(v) THEN v.s ELSE NumText(v) \o <<32>>
 
@@ -288,11 +226,11 @@ Exec(m, p, s) ==
     [] s.k \in {"return", "next"} /\ m.ctlx -> OutOfModel(m, "frames after error")
     [] s.k = "return" ->
          LET r == PopToGosub(m.ctl) IN
-         IF ~r.found THEN Fail([m EXCEPT !.ctl = <<>>], p, Err(EReturnWithoutGosub))
+         IF ~r.found THEN Fail([m EXCEPT !.ctl = <<>>, !.nslots = 0], p, Err(EReturnWithoutGosub))
          \* a frame made by a direct line that has since been replaced: returning into it is
          \* not defined by the manual
          ELSE IF r.f.ln = Direct /\ r.f.gen # m.dgen THEN OutOfModel(m, "frame of an old direct line")
-         ELSE [m EXCEPT !.ctl = r.ctl, !.pc = r.f.ret]
+         ELSE [m EXCEPT !.ctl = r.ctl, !.nslots = Slots(r.ctl), !.pc = r.f.ret]
     [] s.k \in {"ongoto", "ongosub"} ->
          LET r == EvalTop(s.e, St(m))  m1 == [m EXCEPT !.dims = r.d]  sel == ToInt(r.v) IN
          IF IsBad(sel) THEN Fail(m1, p, sel)
@@ -326,10 +264,10 @@ Exec(m, p, s) ==
                         Adv(p))
     [] s.k = "next" ->
          LET r == PopToFor(m.ctl, s.any, IF s.any THEN <<>> ELSE Key(s.v.l, s.v.id, s.v.sfx, <<>>)) IN
-         IF ~r.found THEN Fail([m EXCEPT !.ctl = r.ctl], p, Err(ENextWithoutFor))
+         IF ~r.found THEN Fail([m EXCEPT !.ctl = r.ctl, !.nslots = Slots(r.ctl)], p, Err(ENextWithoutFor))
          ELSE IF r.f.ln = Direct /\ r.f.gen # m.dgen THEN OutOfModel(m, "frame of an old direct line")
          ELSE LET f == r.f
-                  m1 == [m EXCEPT !.ctl = r.ctl]
+                  m1 == [m EXCEPT !.ctl = r.ctl, !.nslots = Slots(r.ctl)]
                   cur == BinOp("add", Fetch(m.vars, m.deft, f.key), f.step) IN
               IF IsBad(cur) THEN Fail(m1, p, cur)
               ELSE LET w == Store(m1, f.node, cur) IN
@@ -337,7 +275,7 @@ Exec(m, p, s) ==
                    ELSE IF ~f.step.x \/ ~cur.x \/ ~f.lim.x \/ IsStr(f.lim) THEN OutOfModel(w.m, "next")
                    ELSE LET done == IF f.step.n < 0 THEN CmpNum(cur, f.lim) < 0 ELSE CmpNum(f.lim, cur) < 0 IN
                         IF done THEN [w.m EXCEPT !.pc = Adv(p)]
-                        ELSE [w.m EXCEPT !.ctl = Append(r.ctl, f), !.pc = f.body]
+                        ELSE [w.m EXCEPT !.ctl = Append(r.ctl, f), !.nslots = @ + 4, !.pc = f.body]
     [] s.k = "while" ->
          LET r == EvalTop(s.c, St(m))  m1 == [m EXCEPT !.dims = r.d]
              prs == IF p.ln = Direct THEN m.dpairs ELSE m.pairs IN
@@ -356,7 +294,7 @@ Exec(m, p, s) ==
     [] s.k = "stop" ->
          LET m1 == Item(FreshLine(m), [k |-> "err", errs |-> {[code |-> EBreak, ln |-> IF InProgram(p) THEN p.ln ELSE -1]}]) IN
          IF InProgram(p) THEN GoReady([m1 EXCEPT !.cont = Adv(p), !.contx = NothingLeft(m, Adv(p))])
-         ELSE GoReady([m1 EXCEPT !.cont = NoCont, !.contx = FALSE, !.ctl = <<>>, !.stale = FALSE])
+         ELSE GoReady([m1 EXCEPT !.cont = NoCont, !.contx = FALSE, !.ctl = <<>>, !.nslots = 0, !.stale = FALSE])
     [] s.k = "read" ->
          IF m.dptr >= Len(m.data) THEN Fail(m, p, Err(EOutOfData))
          ELSE LET w == Store([m EXCEPT !.dptr = @ + 1], s.v, m.data[m.dptr + 1]) IN
@@ -492,7 +430,7 @@ EnterLine(m, n, stmts) ==
   IF n > MaxLine THEN GoReady(Item(FreshLine(m0), [k |-> "err", errs |-> {[code |-> AnyErr, ln |-> -1]}]))
   ELSE IF stmts = <<>> THEN
     (IF n \in DOMAIN m.lst THEN Edited(m0, [x \in DOMAIN m.lst \ {n} |-> m.lst[x]], [x \in DOMAIN m.lst \ {n} |-> m.src[x]])
-     ELSE [m0 EXCEPT !.cont = NoCont, !.contx = FALSE, !.ctl = <<>>, !.ctlx = FALSE,
+     ELSE [m0 EXCEPT !.cont = NoCont, !.contx = FALSE, !.ctl = <<>>, !.nslots = 0, !.ctlx = FALSE,
                      !.stale = (m.stale \/ m.ctl # <<>> \/ m.ctlx)])
   ELSE Edited(m0, [x \in DOMAIN m.lst \cup {n} |-> IF x = n THEN Norm(stmts) ELSE m.lst[x]],
                   [x \in DOMAIN m.lst \cup {n} |-> IF x = n THEN stmts ELSE m.src[x]])
@@ -531,9 +469,9 @@ Interrupt(m) ==
       m1 == Item(FreshLine(m), [k |-> "err", errs |-> {[code |-> EBreak, ln |-> LineUnspec]}]) IN
   IF m.mode = "input" THEN
      (IF InProgram(m.inp) THEN GoReady([m1 EXCEPT !.cont = m.inp, !.contx = FALSE, !.inp = NoCont])
-      ELSE GoReady([m1 EXCEPT !.cont = NoCont, !.contx = FALSE, !.ctl = <<>>, !.inp = NoCont, !.stale = FALSE]))
+      ELSE GoReady([m1 EXCEPT !.cont = NoCont, !.contx = FALSE, !.ctl = <<>>, !.nslots = 0, !.inp = NoCont, !.stale = FALSE]))
   ELSE IF inprog THEN GoReady([m1 EXCEPT !.cont = p, !.contx = FALSE])
-  ELSE GoReady([m1 EXCEPT !.cont = NoCont, !.contx = FALSE, !.ctl = <<>>, !.stale = FALSE])
+  ELSE GoReady([m1 EXCEPT !.cont = NoCont, !.contx = FALSE, !.ctl = <<>>, !.nslots = 0, !.stale = FALSE])
 
 \* deliver one user action
 Apply(mm, c) ==
